@@ -80,7 +80,7 @@ def render_affine(draw, coefs, const, env, allow_vector_forms=True, _inner=False
             if not any(sub):
                 continue
             style = draw(st.sampled_from(["elementwise", "lincomb", "lincomb", "vsum", "shifted", "slice", "matvecrow",
-                                          "reversed", "reversed", "powsum", "dotconst"]))
+                                          "reversed", "reversed", "powsum", "dotconst", "exprsum"]))
             V = ["vvar", v["name"]]
             if style == "powsum" and len(set(sub)) == 1:
                 # sum(x ** 1): a linear node of its own kind (VectorPowerSum), also over a reversed view
@@ -93,6 +93,15 @@ def render_affine(draw, coefs, const, env, allow_vector_forms=True, _inner=False
                     r = ["bin", "+", r, ["vsum", ["vpow", V, 0]]]
                     const -= v["n"]
                 forms.append("sum(x**1)")
+            elif style == "exprsum":
+                # the sum of a vector EXPRESSION: (c * x).sum(), (x * c + k).sum()
+                E = ["vbin", "*", V, ["arr", sub], draw(st.sampled_from(["right", "left"]))]
+                if draw(st.booleans()):
+                    k = draw(st.sampled_from([1, -2, 0.5]))
+                    E = ["vbin", "+", E, ["num", "pyfloat", k], "right"]
+                    const -= k * v["n"]
+                r = ["vsum", E]
+                forms.append("(c*x).sum()")
             elif style == "dotconst":
                 # dot product with a vector expression that holds only constants
                 cvec = ["vexpr", [["const", "Constant", a] for a in sub]]
